@@ -46,7 +46,7 @@ TDeq ==
     /\ pending' = MsgOf(Trace[l])
     /\ UNCHANGED vars
 
-(* `doneMessage, ok := netMessage.Payload().(*signingDoneMessage); if !ok { continue }` *)
+(* the payload is not a signingDoneMessage: `if !ok { continue }` *)
 TDeqOther ==
     /\ IsEvent("DeqOther")
     /\ pending = NoMsg
